@@ -27,9 +27,10 @@ type ParserData struct {
 	loopLayer  int // 当前loop层数
 	blockDepth int // 当前已打开的语句块数量，break/continue 跳出时需要先关闭循环内打开的块
 	codeStack  []struct {
-		code    []ByteCode
-		index   int
-		textPos int
+		code      []ByteCode
+		index     int
+		textPos   int
+		loopLayer int
 	}
 }
 
@@ -405,12 +406,15 @@ func (p *ParserData) AddAttrSet(objName string, attr string, isRaw bool) {
 
 func (p *ParserData) CodePush(textPos int) {
 	p.codeStack = append(p.codeStack, struct {
-		code    []ByteCode
-		index   int
-		textPos int
-	}{code: p.code, index: p.codeIndex, textPos: textPos})
+		code      []ByteCode
+		index     int
+		textPos   int
+		loopLayer int
+	}{code: p.code, index: p.codeIndex, textPos: textPos, loopLayer: p.loopLayer})
 	p.code = make([]ByteCode, 256)
 	p.codeIndex = 0
+	// 函数体/计算值是独立的代码段，其外层的循环对它不可见：其中直接写 break/continue 是语法错误，不能跳进外层代码
+	p.loopLayer = 0
 }
 
 func (p *ParserData) CodePop() ([]ByteCode, int, int) {
@@ -421,5 +425,6 @@ func (p *ParserData) CodePop() ([]ByteCode, int, int) {
 	p.codeStack = p.codeStack[:last]
 	p.code = info.code
 	p.codeIndex = info.index
+	p.loopLayer = info.loopLayer
 	return lastCode, lastIndex, info.textPos
 }
